@@ -19,6 +19,10 @@ KNOWN_EOF = 'async/eof-after-done/pending-wiped'
 
 # ------------------------------------------------------------------------------------ virtual-time event loop
 
+class Cancelled(Exception):
+    pass
+
+
 class VSelector(object):
     """selector whose waiting happens on the virtual clock (arrivals = peer actions at absolute virtual times)"""
 
@@ -208,7 +212,14 @@ def run_object(case, all_sync):
             rec = dict(t0=clk.now)
             pats = pats_real(op, encoding)
             try:
-                if op['mode'] == 'a' and not all_sync:
+                if op['mode'] == 'c' and not all_sync:
+                    # the caller gives up on its own (outer wait_for): the awaited call is cancelled, not timed out
+                    inner = p.expect_exact(pats, timeout=op['T'] + 5, async_=True) if op['k'] == 'x' else p.expect_list(pats, timeout=op['T'] + 5, async_=True)
+                    try:
+                        i = await asyncio.wait_for(inner, op['T'])
+                    except asyncio.TimeoutError:
+                        raise Cancelled()
+                elif op['mode'] == 'a' and not all_sync:
                     if op['k'] == 'x':
                         i = await p.expect_exact(pats, timeout=op['T'], async_=True)
                     else:
@@ -223,6 +234,8 @@ def run_object(case, all_sync):
                 rec['out'] = 'EOF'
             except TIMEOUT:
                 rec['out'] = 'TIMEOUT'
+            except Cancelled:
+                rec['out'] = 'CANCELLED'
             except V.WouldBlockForever:
                 rec['out'] = 'BLOCKED'
             except Exception as e:      # noqa
@@ -289,9 +302,20 @@ def near_tie(case, rec, op):
 def compare_twin(case, a, b):
     """first difference between the object under test and the all-blocking twin, up to and including the first EOF"""
     pend_prev = ''
+    cancelled = False
     for n, (ra, rb) in enumerate(zip(a['recs'], b['recs'])):
         if near_tie(case, ra, case['ops'][n]) or near_tie(case, rb, case['ops'][n]):
             return None
+        if ra['out'] == 'CANCELLED':
+            # the caller cancelled the awaited call (the twin's call timed out at the same moment): nothing was consumed; what
+            # arrives afterwards, with no call outstanding, must reach the next call
+            if rb['out'] not in ('TIMEOUT',) and not rb['out'].startswith('idx'):
+                return None
+            if rb['out'] != 'TIMEOUT':
+                return None            # the twin matched within the time: the histories are no longer comparable
+            pend_prev = rb['before'] or ''
+            cancelled = True
+            continue
         # text that arrived during a call that timed out is pending *and* searchable: the search buffer cannot be empty then
         if (ra['out'] == 'TIMEOUT' or ra['after'] == 'TIMEOUT') and ra['before'] is not None and ra['buffer'] is not None:
             if len(ra['before']) > len(pend_prev) and ra['buffer'] == '':
@@ -305,6 +329,11 @@ def compare_twin(case, a, b):
             return n, 'pending-vs-buffer', ra['before'], ra['buffer']
         for f in FIELDS:
             if ra.get(f) != rb.get(f):
+                if f == 'buffer' and cancelled and ra.get(f) is not None and rb.get(f) is not None and \
+                        (ra[f].startswith(rb[f]) or rb[f].startswith(ra[f])):
+                    # after a cancelled call the transport goes on reading: the awaited object may already hold output that the
+                    # twin has not yet read from the kernel.  Same stream position; only the amount read ahead differs.
+                    continue
                 return n, f, ra.get(f), rb.get(f)
         if ra['out'] == 'EOF' or ra['after'] == 'EOF':
             return None
@@ -323,7 +352,7 @@ def model_line(case, run):
     toks = ['AY']
     for op in case['ops'][:len(run['recs'])]:
         pats = '+'.join(X.pat_tok(q, op) for q in op['pats']) if op['pats'] else '_'
-        toks.append('%s%s:0:%s' % ('a' if op['mode'] == 'a' else '', op['k'], pats))
+        toks.append('%s%s:0:%s' % ('a' if op['mode'] in ('a', 'c') else '', op['k'], pats))
     toks.append('@')
     eof_seen = False
     for ev in run['log']:
@@ -430,6 +459,23 @@ def unicode_case(rng):
     return dict(kind=rng.choice(['fd', 'fd', 'pty']), encoding='utf-8', arrivals=arrivals, ops=ops)
 
 
+def cancel_case(rng):
+    """an awaited call that the caller cancels (outer wait_for), output that arrives while no call is outstanding, then more calls;
+    exact search / small patterns so that the search buffer is trimmed while text is pending"""
+    alph = 'abxy\n'
+    arrivals = []
+    for _ in range(rng.randrange(2, 6)):
+        arrivals.append([rng.choice([0.1, 0.2, 0.3, 0.5]), 'w', ''.join(rng.choice(alph) for _ in range(rng.randrange(3, 12)))])
+    ops = [dict(mode='c', k='x', pats=[['s', 'QQ']], T=rng.choice([0.337, 0.571]), gap=0)]
+    for _ in range(rng.randrange(1, 3)):
+        s_ = ''.join(rng.choice(alph) for _ in range(rng.choice([1, 2])))
+        ops.append(dict(mode=rng.choice('aas'), k=rng.choice('xr'), pats=[['s', s_]] if True else [], T=rng.choice([0.571, 1.043]), gap=rng.choice([0.2, 0.5, 1.0])))
+    for op in ops:
+        if op['k'] == 'r':
+            op['pats'] = [['re', 's', X.lit(op['pats'][0][1])]]
+    return dict(kind='fd', arrivals=arrivals, ops=ops)
+
+
 CORPUS = [
     # data before the first await, between awaits, several chunks in one turn, EOF with the last data
     dict(kind='fd', arrivals=[[0.0, 'w', 'hello '], [0.0, 'w', 'world'], [0.3, 'w', ' again'], [0.0, 'c']],
@@ -476,6 +522,8 @@ def run(ctx):
         cases.append(rand_case(ctx.rng, allow_t0=True))
     for _ in range(40 if ctx.quick() else 400):
         cases.append(unicode_case(ctx.rng))
+    for _ in range(40 if ctx.quick() else 400):
+        cases.append(cancel_case(ctx.rng))
     cases += [copy.deepcopy(c) for _, c in KNOWN_CASES]
     runs = []
     hist = collections.Counter()
@@ -514,6 +562,8 @@ def run(ctx):
         for c, (a, b), ml in zip(cases, runs, mouts):
             if any(op['mode'] == 'a' and op['T'] == 0 for op in c['ops']):
                 continue          # outside the modelled domain (known finding a)
+            if any(op['mode'] == 'c' for op in c['ops']):
+                continue          # a cancelled call is not an event of the model; judged against the twin
             if c.get('encoding'):
                 continue          # unicode mode: judged against the blocking twin (the codec is outside this model; C07)
             if any(ev[0] == 'd' and ev[2] for ev in a['log']):
